@@ -373,7 +373,7 @@ fn scenario(w: &mut World, ctx: &RunCtx, states: &mut Vec<u64>) -> Result<(), Vi
     if replayed_handshake_from_peer {
         w.count("c08_liveness_exempt_replayed_handshake");
     }
-    if state != 5 && !replayed_handshake_from_peer && w.is_connected(0, 1) && w.is_connected(1, 0) {
+    if state != 5 && w.is_connected(0, 1) && w.is_connected(1, 0) {
         let first = w.dev_writes.len();
         let now = w.now_ms;
         send_probe(w, 0, 1, now + 1);
